@@ -37,11 +37,19 @@ def run(res):
             elif silent_recovery_class(w): known_recovery += 1
             elif w[1] == "slow-nested-narrow": known_nested += 1
             else: bads.append(w)
+    # the second shape of the silent recovery (listed): `x :: T < y` opens type arguments that never close; full_moon returns a
+    # tree without the condition and without an error
+    wsrc = "while x :: number < ... do\n\tlocal y = 1\nend\n"
+    wout = sh([SVH, "fmt"], inp="w1 syntax=Luau #%s\n" % wsrc.encode().hex(), timeout=120, check=False).stdout.split()
+    typeargs_reproduced = len(wout) > 2 and wout[1] == "ok" and b"while" not in bytes.fromhex(wout[2][1:])
     if deep.returncode != 0:
         bads.append(["BADCASE", "abort-exit-%d" % deep.returncode, "deep:" + last_start, "Lua51", "syntax=Lua51", "-", "0", "#", "#"])
     # the listed findings, each replayed on its own; printed while they reproduce
     reproduced = {}
     for e in known_findings("C07"):
+        if e.get("id") == "F-C07-silent-recovery-typeargs":
+            if typeargs_reproduced: res.known.append(e["what"])
+            continue
         fam = PROBES.get(e.get("id"))
         if not fam: continue
         try:
